@@ -175,7 +175,7 @@ func C19() *vk.Check {
 		Rule: "binary built with -race (and -tags logtrace, LogWriter discarded, so the logging path is raced too). Rounds of 2..16 goroutines, each serving its own session (own engine, state, cache, recording resource, store handle: long-lived / per-request on own mem store / fs handles on one shared directory / Postgres-fake connections to one server) over one shared application whose bytecode slices are handed out as the same slices with canary-filled spare capacity; interleavings are widened by PRNG Gosched/µs sleeps inside the resource callbacks only. " +
 			"Oracle: (1) race reports in GORACE log_path: any report with a library frame = violation, a harness-only report = inconclusive; (2) every session's transcript equals the transcript of the same session served alone, sequentially; (3) canaries/hash of shared data unchanged. " +
 			"distinct = hash(round, session transcripts); non-trivial = the round observed at least one cross-session switch between two callbacks.",
-		Assumptions:    []string{"only schedules that occurred are covered; the race detector reports only accesses that both executed", "input validators are registered once before the sessions start (documented usage)"},
+		Assumptions:    []string{"only schedules that occurred are covered; the race detector reports only accesses that both executed", "input validators are registered only while no session is being served (documented usage)"},
 		MinEvaluations: 20,
 		Shards:         func(tier string) int { return 4 },
 		NoAddressLimit: true,
@@ -223,6 +223,18 @@ func runC19(c *vk.Ctx) {
 			}
 			sessions[j] = &c19session{id: j, cfg: cfg, hist: h, drv: drv}
 		}
+		// a further input format is registered before the round, while nothing is being served (documented usage:
+		// engine.AddValidInput may be called more than once); the sessions of the round use it right away
+		custom := fmt.Sprintf("#r%d", i)
+		vm.RegisterInputValidator(1000+i, "^"+custom+"x[0-9]+$")
+		for _, s := range sessions {
+			for x := range s.hist {
+				if x > 0 && r.Chance(1, 5) {
+					s.hist[x] = custom + "x7"
+				}
+			}
+		}
+		c.Count("input_validators_registered", 1)
 		c.Begin(key)
 		before := atomic.LoadInt64(&c19Switches)
 		atomic.StoreInt64(&c19Last, -1)
